@@ -219,7 +219,7 @@ def judge(ctx, case):
     if case['class'] == 'threads':
         return judge_threads(ctx, case)
     iso = ctx.iso
-    cfg = msgwork.materialise_cfg(ctx, case, iso.dumps)
+    cfg = msgwork.materialise_cfg(ctx, case, iso.dumps, iso.loads)
     msg = gen.unjsonable(case['msg'])
     for k, v in case['msg'].items():
         if v is None:
